@@ -26,6 +26,7 @@
     * :meth:`_AdbIOManagerAsync._read_expected_packet_from_device`
     * :meth:`_AdbIOManagerAsync._read_packet_from_device`
     * :meth:`_AdbIOManagerAsync._send`
+    * :meth:`_AdbIOManagerAsync._write_bytes_to_device`
     * :meth:`_AdbIOManagerAsync.close`
     * :meth:`_AdbIOManagerAsync.connect`
     * :meth:`_AdbIOManagerAsync.read`
@@ -548,6 +549,37 @@ class _AdbIOManagerAsync(object):
 
         return command, arg0, arg1, data
 
+    async def _write_bytes_to_device(self, data, adb_info):
+        """Write all of ``data`` to the device.
+
+        The transport may accept only a part of the data that it is given, in which case the remainder is written with further calls.
+
+        Parameters
+        ----------
+        data : bytes, bytearray
+            The data that will be written
+        adb_info : _AdbTransactionInfo
+            Info and settings for this ADB transaction
+
+        Raises
+        ------
+        adb_shell.exceptions.AdbTimeoutError
+            Did not write all of ``data`` in time
+
+        """
+        start = time.time()
+
+        while True:
+            num_sent = await self._transport.bulk_write(data, adb_info.transport_timeout_s)
+            if num_sent is None or num_sent >= len(data):
+                return
+
+            data = data[num_sent:]
+
+            if time.time() - start > adb_info.read_timeout_s:
+                # Timeout
+                raise exceptions.AdbTimeoutError("Timeout: {} bytes were not written (transport_timeout_s = {}, read_timeout_s = {})".format(len(data), adb_info.transport_timeout_s, adb_info.read_timeout_s))
+
     async def _send(self, msg, adb_info):
         """Send a message to the device.
 
@@ -565,11 +597,11 @@ class _AdbIOManagerAsync(object):
         """
         packed = msg.pack()
         _LOGGER.debug("bulk_write(%d): %r", len(packed), packed)
-        await self._transport.bulk_write(packed, adb_info.transport_timeout_s)
+        await self._write_bytes_to_device(packed, adb_info)
 
         if msg.data:
             _LOGGER.debug("bulk_write(%d): %r", len(msg.data), msg.data)
-            await self._transport.bulk_write(msg.data, adb_info.transport_timeout_s)
+            await self._write_bytes_to_device(msg.data, adb_info)
 
 
 class AdbDeviceAsync(object):
